@@ -59,7 +59,8 @@ def run(ctx):
                                            p_save=0.06 if t % 4 == 3 else 0.0, variants=("canonical", "always"),
                                            trailing=rnd.choice([0, 0, 1, 2]) if t % 4 == 3 else 0))
     traces.append(links.long_history(ctx, rnd, "h-long", 300 if q else 1200))
-    traces.append(links.high_index_history(ctx, rnd, "h-high"))                     # scale in space: repeated requests between positions above 256      # scale in time: hundreds of freed slots on one module
+    traces.append(links.high_index_history(ctx, rnd, "h-high"))
+    traces.append(links.output_source_history(ctx, rnd, "h-output-source"))                     # scale in space: repeated requests between positions above 256      # scale in time: hundreds of freed slots on one module
     canaries = []
     for tr in traces[:5]:
         c = links.corrupt(tr, rnd)
